@@ -118,14 +118,14 @@ func (lf *logFile) size() int64 {
 
 // span: a run of bytes that belongs to one field instance
 type span struct {
-	Region string `json:"region"`
-	Off    int64  `json:"off"` // logical offset in the region
-	Len    int    `json:"len"`
-	Field  string `json:"field"`
-	Tx     int    `json:"tx"`    // 1-based tx id
-	Entry  int    `json:"entry"` // 0-based entry index, -1 for header/clog fields
-	Val    uint64 `json:"val"`   // decoded integer value for length/offset/int fields
-	inChunk bool  // compressed vlog: bytes are contiguous inside one chunk file
+	Region  string `json:"region"`
+	Off     int64  `json:"off"` // logical offset in the region
+	Len     int    `json:"len"`
+	Field   string `json:"field"`
+	Tx      int    `json:"tx"`    // 1-based tx id
+	Entry   int    `json:"entry"` // 0-based entry index, -1 for header/clog fields
+	Val     uint64 `json:"val"`   // decoded integer value for length/offset/int fields
+	inChunk bool   // compressed vlog: bytes are contiguous inside one chunk file
 }
 
 type entryInfo struct {
